@@ -79,6 +79,32 @@ pub fn main(o: &Opts) -> Result<i32, String> {
     let mut no_names = 0usize;
     for (si, scn) in scns.iter().enumerate() {
         let mut eps = endpoint_classes(scn);
+        if let Some(nm) = scn.get("name").and_then(|n| n.as_str()) {
+            // the scenario names its protocol itself (names outside the 13 344-name table: psk5.., fallback)
+            let parts: Vec<&str> = nm.split('_').collect();
+            if parts.len() != 5 {
+                return Err(format!("scenario name {nm}"));
+            }
+            let ps = PrimSet {
+                dh: DhAlg::parse(parts[2]).ok_or("scn dh")?,
+                cipher: CipherAlg::parse(parts[3]).ok_or("scn cipher")?,
+                hash: HashAlg::parse(parts[4]).ok_or("scn hash")?,
+            };
+            let mut nmap = HashMap::new();
+            nmap.insert("*".to_string(), nm.to_string());
+            jobs.push(Job {
+                scn_idx: si,
+                inst: Instance {
+                    names: nmap,
+                    ps,
+                    backends: HashMap::new(),
+                    seed: seed.wrapping_mul(1_000_003).wrapping_add(si as u64),
+                    prologue_len: PROLOGUE_LENS[(si + seed as usize) % PROLOGUE_LENS.len()],
+                    psks: vec![],
+                },
+            });
+            continue;
+        }
         if scn["family"].as_str() == Some("transport") {
             eps = vec![("*".to_string(), format!("T|{}", scn["prm"]["oneway"]))];
         }
